@@ -68,8 +68,22 @@ class CliScenario:
                 return K(False)
             return None
         if d == "get_absolute_module_from_package_for_import" and len(args) == 2:
+            # libcst.helpers: an absolute import names its module; a relative one is resolved against the package
+            # (None when no package is given)
             n = args[1]
-            return n.fields["module"] if isinstance(n, R) and "module" in n.fields else None
+            if not (isinstance(n, R) and "module" in n.fields):
+                return None
+            dots = n.fields.get("relative", K(0))
+            dots = dots.v if isinstance(dots, K) and isinstance(dots.v, int) else 0
+            if dots == 0:
+                return n.fields["module"]
+            pkg = args[0]
+            if not (isinstance(pkg, K) and isinstance(pkg.v, str)):
+                return K(None) if pkg == K(None) else None
+            parts = pkg.v.split(".")
+            base = parts[: len(parts) - (dots - 1)] if dots - 1 <= len(parts) else []
+            modname = n.fields["module"].v if isinstance(n.fields["module"], K) else None
+            return K(".".join(base + ([modname] if modname else [])))
         if d in ("list", "set") and len(args) == 1:
             seq = self.ri.interp.iterate(args[0], st)
             if seq is not None:
